@@ -78,7 +78,8 @@ def menu_contents(prog):
 
 def canon_json(typ, v, tab):
     if v is None:
-        return "<null>"
+        # a numeric option that nothing provides a value for is sent as null (KOutputs.CanonVal of the empty value)
+        return "<nan:>" if typ in ("int", "hex", "float") else "<null>"
     if typ == "bool":
         return "y" if v is True else ("n" if v is False else "<bad:%r>" % (v,))
     if typ in ("int", "hex"):
